@@ -43,9 +43,31 @@ static long do_pop(int t) {
   g_ret(h, r ? (long)r : RES_EMPTY);
   return r ? (long)r : RES_EMPTY;
 }
+/* blocking variants: producers only push, consumers only pop, as many pops as pushes in total, so every call
+ * returns as long as the ring delivers what it accepted */
+static int blocking, bcount[MAXTH];
+static void do_push_blocking(int t, long v) {
+  int h = g_inv(t, OP_TRYPUSH, v);
+  g_pushed(v); /* a blocking push cannot fail: the value counts as accepted from the start */
+  lockfree_ring_buffer_push(rb, (void*)v);
+  g_ret(h, RES_OK);
+}
+static void do_pop_blocking(int t) {
+  int h = g_inv(t, OP_POP, 0);
+  void* r = lockfree_ring_buffer_pop(rb);
+  g_popped((long)r);
+  g_ret(h, (long)r);
+}
 static void* thr(void* p) {
   const int t = (int)(intptr_t)p;
   int seq = 0;
+  if (blocking) {
+    for (int i = 0; i < bcount[t]; i++) {
+      if (t & 1) do_pop_blocking(t);
+      else do_push_blocking(t, ((long)(t + 1) << 8) | (++seq));
+    }
+    return NULL;
+  }
   for (int i = 0; i < prog[t].n; i++) {
     if (prog[t].op[i]) do_push(t, ((long)(t + 1) << 8) | (++seq));
     else do_pop(t);
@@ -65,9 +87,18 @@ void h_run(void) {
     for (int i = 0; i < prog[t].n; i++) prog[t].op[i] = wl_pct(55);
     total += prog[t].n;
   }
+  blocking = wl_pct(25);
+  if (blocking) {
+    /* even threads produce, odd threads consume; the pops add up to the pushes */
+    int pushes = 0, pops = 0, ncons = nth / 2;
+    for (int t = 0; t < nth; t += 2) pushes += bcount[t] = wl_int(1, maxops);
+    for (int t = 1; t < nth; t += 2) bcount[t] = 0;
+    for (int k = 0; k < pushes; k++) bcount[1 + 2 * (ncons > 1 ? wl_pick(ncons) : 0)]++, pops++;
+    total = pushes + pops;
+  }
   int back = wl_int(0, 6);
   uint64_t start = adv == 0 ? 0 : adv == 1 ? 0xFFFFFFFFull - back : adv == 2 ? UINT64_MAX - back : ((uint64_t)wl_int(1, 1 << 30) << 20);
-  sim_describe("threads=%d capacity=%d ops=%d index_start=%#lx preempt=1/%d", nth, cap, total, (unsigned long)start, c.preempt_inv);
+  sim_describe("threads=%d capacity=%d ops=%d blocking_calls=%d index_start=%#lx preempt=1/%d", nth, cap, total, blocking, (unsigned long)start, c.preempt_inv);
   if (adv == 2) sim_scenario("indices-wrap-2^64");
   if (nth >= 2 && total >= 3) sim_nontrivial();
   hist_reset(M_BFIFO, cap);
